@@ -50,4 +50,22 @@ REG = {
         'delta thresholds in both directions, all token length class pairs, and random sequences up to 40 edits; after every edit TLC compares the '
         'accessor dump, and the re-encoding and re-parse, with the model.',
    note='ASan/UBSan observe stale-pointer use after realloc; they are not part of the model. Trusted as for C01.'),
+ 'C16': dict(module='uri', engine='uri', category='model_checking', design_ref='4/C16',
+   technique='TLA+ operators for RFC 3986/7252 URI<->option conversion (TLC: left inverse on all small segment lists) + TLC judging every real conversion',
+   text='Uri.tla defines SplitUri, PathToSegs/QueryToSegs (split, decode once, dot-segment removal incl. %2e spellings) and the escaping direction; '
+        'MC_Uri checks on every list of <= 2-3 segments over a hostile byte alphabet that text->options is a left inverse of options->text (so the '
+        'lookup key is injective). The real coap_get_uri_path/coap_get_query output for all those lists (and random ones) is parsed by the RFC operators '
+        'and must give the list back and feed back through coap_split_path/query; paths/queries from a grammar of 30 segment spellings and URIs from '
+        'scheme x host x port x path x query plus a malformed catalogue are split by the real functions and compared with the model.',
+   note='All inputs are exact-size heap copies without terminator under ASan (overread = abort = violation), output buffers of every smaller size are swept. '
+        'Latitude cells (DESIGN.md 7.1) are executed but not judged and counted in evidence.'),
+ 'C20': dict(module='wkc', engine='wkc', category='model_checking', design_ref='4/C20',
+   technique='TLA+ operators for RFC 6690 listing/filter/window (TLC) + TLC judging every window, listing and block-wise GET of the real server',
+   text='Wkc.tla defines Link, Listing(table, filter) with exact / prefix-* / space-separated-token matching on href, rt, if, rel and attribute values, '
+        'Window and the truncation rule; MC_Wkc checks the window algebra. For each generated resource table (0-12 resources, quoted / unquoted / empty / '
+        'missing values, observable and OSCORE markers, an application-defined .well-known/core) and filter, the real coap_print_wellknown is called for '
+        'EVERY (offset, buffer length) pair up to listing length + 2 into exact-size heap buffers, and the real server answers block-wise GETs for several '
+        'SZX on the simulator; TLC requires the unfiltered listing to render exactly the registered set, the filtered one to be Listing(), every window, '
+        'total and truncation flag to be exact, and every reassembled body to equal the listing.',
+   note='Attribute order within a link is read from the unfiltered listing (RFC 6690 does not fix it). Filters the statement does not define are executed, not judged.'),
 }
